@@ -1106,7 +1106,10 @@ def run(ctx):
                 "end over a real client/server Transport pair (in-memory sockets, real handshake and Packetizer): "
                 "transfers larger than the advertised window in both directions and streams with non-default "
                 "default_window_size / default_max_packet_size on either side (rotating by seed, all in thorough), and "
-                "a sendall placed inside the tear-down of a transport whose peer went away; "
+                "a sendall placed inside the tear-down of a transport whose peer went away; compound events (what another "
+                "thread did within the same sleep x the window adjust that wakes the sender, both orders), a 1 MiB "
+                "transfer at default window / packet sizes; oracles also on the wire order (no data after our EOF) "
+                "and the window account (window == initial + adjusts - bytes framed); "
                 "a case is "
                 "non-trivial when the data is non-empty and it needs >= 2 chunks, or raises, or has events")
     ctx.trusted += ["model coq/Model/C25.v is hand-written; tied to paramiko/channel.py (sendall, sendall_stderr, "
